@@ -440,6 +440,52 @@ def value_tests(fn):
     return vals
 
 
+def _mentions(fn, n, member):
+    """Does the expression tree `n` contain `emu->ev-><member>`?"""
+    e = strip(n)
+    if fn.ev_member(e) == member:
+        return True
+    # through any alias of the event (`const struct emu_ev *ev = emu->ev; … ev->v`)
+    if e.get("kind") == "MemberExpr" and e.get("name") == member and kids(e):
+        bt = strip(kids(e)[0]).get("type", {}).get("qualType", "")
+        if "emu_ev" in bt:
+            return True
+    return any(_mentions(fn, c, member) for c in kids(n))
+
+
+def unrecognised_value_uses(fn, nswitches, ntests):
+    """Uses of `emu->ev->v` that decide control flow (or that copy it into a
+    local) beyond the recognised value switch / value tests: an if/else chain
+    over the value, a ternary, a local alias.  The extractor does not follow
+    those, so the facts of this function must not be taken from it."""
+    found = []
+    if fn.root is None:
+        return found
+    conds = 0
+
+    def walk(n):
+        nonlocal conds
+        k = n.get("kind")
+        ks = kids(n)
+        if k in ("IfStmt", "ConditionalOperator", "WhileStmt", "ForStmt", "DoStmt") and ks:
+            cond = ks[0] if k != "DoStmt" else ks[-1]
+            if k == "ForStmt":
+                cond = None
+                for c in ks[:-1]:
+                    if _mentions(fn, c, "v"):
+                        cond = c
+            if cond is not None and _mentions(fn, cond, "v"):
+                conds += 1
+        if k == "VarDecl" and ks and _mentions(fn, ks[-1], "v") and nswitches + ntests == 0:
+            found.append("ev->v copied into the local '%s'" % n.get("name", "?"))
+        for c in ks:
+            walk(c)
+    walk(fn.root)
+    if conds > ntests:
+        found.append("%d condition(s) on ev->v besides the recognised value switch/tests" % (conds - ntests))
+    return found
+
+
 # --------------------------------------------------------------------------
 # per model
 # --------------------------------------------------------------------------
@@ -599,6 +645,8 @@ class Model:
                 if vs:
                     unres.append(f"{name}: both a value switch and a value test")
                 vtests.append((name, vt))
+            for what in unrecognised_value_uses(cfn, len(vs), len(vt)):
+                unres.append(f"{name}: {what}")
         return {"path": path, "handler": handler, "guards": guards, "directTable": direct,
                 "tableFns": table_fns, "switches": switches, "valueTests": vtests,
                 "evChar": model_chars[0] if len(set(model_chars)) == 1 else None}
